@@ -117,8 +117,11 @@ def build_harness(tags="verif"):
     return out
 
 
+_T0 = time.time()
+
+
 def log(msg):
-    print("[verif] " + msg, file=sys.stderr, flush=True)
+    print("[verif +%.0fs] %s" % (time.time() - _T0, msg), file=sys.stderr, flush=True)
 
 
 # ---------------------------------------------------------------- TLC
